@@ -16,6 +16,7 @@ RULE = ("translator: every __call__ under exponax/nonlin_fun and the private non
         "in exact Gaussian-rational arithmetic on the same float coefficients), all retained modes compared and out-of-band output required to vanish; the dealiasing mask vs the rational cutoff "
         "K(N) for N = 3..200; witness: independent NumPy fine-grid (4N, no aliasing) evaluation of the documented operator. N ranges cover all residues mod 12. "
         "Non-trivial: states with content up to Nyquist; distinct by input hash.")
+TRUSTED_EXTRA = ["harness/translate/nonlin.py (values as polynomials in inverse transforms of masked spectra; base-class fft / ifft / dealias inlined)"]
 ASSUMPTIONS = ["rfftn(irfftn U * irfftn V) = N^-D circular convolution (convolution theorem; proved per axis, iterated by the D-dim transform)",
                "polynomial terms of degree > 3 are not modelled",
                "translator contracts (properties of rfftn / irfftn, see harness/translate/nonlin.py): rfftn is linear, rfftn(1) = N^D at the mean mode, rfftn(irfftn(M x)) = M x, "
